@@ -165,9 +165,29 @@ def add_landmarks(rng, im, region=None, classes=("PointCloud", "PointUndirectedG
         n = int(rng.integers(4, 9))
         s = gen.shape(rng, cls, d=d, n=n)
         s.points = rng.uniform(lo, np.maximum(hi, lo + 0.5), (n, d))
+        if rng.random() < 0.15:
+            # an annotation that carries marked sub-points of its own (an outline with a few named corners)
+            import menpo.shape as ms
+            s.landmarks["sub"] = ms.PointCloud(rng.uniform(lo, np.maximum(hi, lo + 0.5), (int(rng.integers(3, 6)), d)))
+            cls = cls + "+sub"
         im.landmarks["g%d" % g] = s
         names.append(cls)
     return names
+
+
+def flat_groups(im):
+    """name -> shape for every landmark group of the image, and every landmark group those groups carry themselves."""
+    out = {}
+    if not im.has_landmarks:
+        return out
+
+    def walk(prefix, lm, depth):
+        for k, v in lm.items():
+            out[prefix + str(k)] = v
+            if depth < 3 and v.has_landmarks:
+                walk(prefix + str(k) + "/", v.landmarks, depth + 1)
+    walk("", im.landmarks, 0)
+    return out
 
 
 def decode(res, d):
@@ -191,13 +211,14 @@ def judge(ctx, src, res, T, W, b, half, op, opts, tol, smooth=False, margin=0.0,
     if type(res) is not exp_cls:
         ctx.fail("op_changed_the_image_class", cls=cls, mech=op, got=type(res).__name__)
         return 0
-    src_l = {k: v.points for k, v in src.landmarks.items()} if src.has_landmarks else {}
-    res_l = {k: v.points for k, v in res.landmarks.items()} if res.has_landmarks else {}
+    src_g, res_g = flat_groups(src), flat_groups(res)
+    src_l = {k: v.points for k, v in src_g.items()}
+    res_l = {k: v.points for k, v in res_g.items()}
     if list(src_l) != list(res_l):
         ctx.fail("op_lost_landmark_groups", cls=cls, mech=op, before=list(src_l), after=list(res_l))
         return 0
     for k in src_l:
-        if type(src.landmarks[k]) is not type(res.landmarks[k]) or src_l[k].shape != res_l[k].shape:
+        if type(src_g[k]) is not type(res_g[k]) or src_l[k].shape != res_l[k].shape:
             ctx.fail("op_changed_a_landmark_group", cls=cls, mech=op)
             return 0
     if cls != "BooleanImage":
@@ -469,6 +490,8 @@ def w_ops(ctx, rng, i):
         retain = bool(rng.random() < 0.5)
         rnd = ["ceil", "floor", "round"][rng.integers(0, 3)]
         opts = {"transform": ["rotation", "shear", "scale", "affine"][kind], "retain_shape": retain, "round": rnd}
+        if rng.random() < 0.4:
+            opts["used_before"] = bool(tx.bystander_history(rng, t, 2))
         results.append(call(src.transform_about_centre, rt, t, retain_shape=retain, round=rnd))
     else:
         # direct warps: the transform maps template coordinates to source coordinates
@@ -497,6 +520,10 @@ def w_ops(ctx, rng, i):
             akind = ["AlignmentAffine", "AlignmentSimilarity", "AlignmentTranslation"][rng.integers(0, 3)]
             t = getattr(mt, akind)(ms.PointCloud(tp), ms.PointCloud(sp))
             opts_extra = akind
+            if rng.random() < 0.5:
+                # the usual way to get such an alignment: its target *is* one of the image's annotations (the fit leaves a residual)
+                src.landmarks["fit"] = ms.PointCloud(sp.copy())
+                lmc = lmc + ["alignment_target"]
         elif op in ("warp_affine", "warp_to_mask_affine", "warp_chain"):
             h = np.eye(d + 1)
             h[:d, :d] = gen.well_conditioned(rng, d, 0.6, 1.6)
@@ -521,9 +548,25 @@ def w_ops(ctx, rng, i):
             ctrl_t = (Lsrc - S / 2) @ A.T * 0.9 + np.array(tshape) / 2.0 + rng.normal(scale=0.12, size=Lsrc.shape)
             t = mt.ThinPlateSplines(ms.PointCloud(ctrl_t), ms.PointCloud(Lsrc.copy()))
             smooth = True
+        if op == "warp_affine" and rng.random() < 0.3:
+            # a specialised member (its class promises more than "affine": the landmark side may rely on that)
+            c_t, c_s = np.array(tshape) / 2.0, S / 2.0
+            sk = int(rng.integers(0, 4))
+            if sk == 0:
+                t = mt.Translation(c_s - c_t + rng.uniform(-2, 2, d))
+            elif sk == 1:
+                t = mt.UniformScale(float(rng.uniform(0.7, 1.3)), d)
+            elif sk == 2:
+                t = mt.NonUniformScale(rng.uniform(0.7, 1.3, d))
+            else:
+                t = mt.Rotation(gen.rotation_matrix(rng, d)) if d == 3 else mt.Rotation.init_from_2d_ccw_angle(float(rng.uniform(-12, 12)))
+        used = False
+        if rng.random() < 0.4 and op in ("warp_affine", "warp_alignment", "warp_tps", "warp_pwa"):
+            # the transform object has a past: out-of-place compositions, an inverse taken, a copy made - none of which changes it
+            used = bool(tx.bystander_history(rng, t, d))
         if smooth:
             tol = 0.5 if op == "warp_pwa" else 1.5     # smooth warps: bilinear decoding (across mesh kinks / spline curvature) is only a sanity bound; exactness is judged through T(L') = L
-        opts = {"transform": type(t).__name__}
+        opts = {"transform": type(t).__name__, "used_before": used}
         bsz = [None, None, 7, 150, 5000][rng.integers(0, 5)]      # the documented optional batching of the coordinate transform
         bkw = {} if bsz is None else {"batch_size": bsz}
         opts["batched"] = bsz is not None
